@@ -2,7 +2,7 @@
 import re
 
 from .common import *
-from .fsrules import FsWorld, effect_fn
+from .fsrules import FsWorld, effect_fn, arg_sources
 from .c09 import entry_effects
 from ..framework import Report
 from ..provenance import leaf, shape, entry_str
@@ -164,6 +164,40 @@ def check_config(cfg, w, rep):
                               loc=span_str(t.span), config=cfg, rule="d-existing-destination")
             else:
                 rep.ob(cfg, "d-existing-destination", fn_key(g), "`%s` succeeds only if symlink() succeeded or exists(same destination)" % short(g.path))
+        # (e') the path is made absolute in the same function that opens the target (so that a relative path is resolved
+        # against one working directory: the one in effect when the file was opened and hashed)
+        src_term = e.terms.get("src")
+        if src_term is not None and src_term[0] == "param" and src_term[1] == sf.path:
+            srcs_up = arg_sources(w, sf, src_term[2])
+        else:
+            srcs_up = [(sf, e.body, e.body.blocks[e.blk], src_term)]
+        for (g, b, blk, st) in srcs_up:
+            t = blk.term
+            if st[0] == "field":
+                srcs = prog.field_sources(st[1], st[2])
+                okf = bool(srcs)
+                for (fb, fblk, fi, op) in srcs:
+                    ft = w.sym.of_operand(fb, op) if op is not None else None
+                    flf = prog.owner_fn(fb)
+                    is_abs = ft is not None and ft[0] == "call" and norm_callee(ft[1]) in ("std::path::absolute", "std::fs::canonicalize", "std::path::Path::canonicalize") \
+                        and ft[2] and ft[2][0][0] == "param"
+                    opens_same = False
+                    if is_abs:
+                        for e2 in w.own_effects(flf):
+                            if e2.kind == "Open" and e2.terms.get("path") == ft[2][0]:
+                                opens_same = True
+                    if not (is_abs and opens_same):
+                        okf = False
+                if okf:
+                    rep.ob(cfg, "e-absolute-target", fn_key(g) + ":where-opened", "the stored target is absolutised in the constructor that opens it")
+                else:
+                    rep.violation("e-absolute-late:%s" % fn_key(g),
+                                  "the link target stored by `%s` is not made absolute in the function that opens (and hashes) it: a relative target would be "
+                                  "resolved against a different working directory at commit time than the one the bytes were read from" % st[1],
+                                  loc=span_str(t.span), config=cfg, rule="e-absolute-target")
+            else:
+                rep.violation("e-absolute-late:%s" % fn_key(g), "the symlink source in `%s` is %s, not the linker's stored absolute target" % (short(g.path), term_str(st)[:80]),
+                              loc=span_str(t.span), config=cfg, rule="e-absolute-target")
         # (e)
         shapes = {shape(c) for c in fw.expanded(e).get("src", set())}
         if shapes == {"Abs(Entry)"}:
